@@ -230,7 +230,7 @@ check_rep(int cls, spif_obj_t c, const seq *s)
         CHECK("array: len equals the ideal length", a->len == n);
         if (n > 0) {
             CHECK("array: items allocated", a->items != NULL);
-            CBMC_ONLY(CHECK("array: items has at least len slots", __CPROVER_OBJECT_SIZE(a->items) >= sizeof(spif_obj_t) * (size_t) n));
+            CHECK("array: items has at least len slots", OBJ_SIZE(a->items) >= sizeof(spif_obj_t) * (size_t) n);
             for (i = 0; i < n && a->items; i++) {
                 CHECK("array: slot holds the ideal element", a->items[i] == s->o[i]);
             }
@@ -335,7 +335,7 @@ rep_extract(int cls, spif_obj_t c, spif_obj_t *out)
         CHECK("array: len is not negative", a->len >= 0);
         if (a->len > 0) {
             CHECK("array: items allocated", a->items != NULL);
-            CBMC_ONLY(CHECK("array: items has at least len slots", a->items == NULL || __CPROVER_OBJECT_SIZE(a->items) >= sizeof(spif_obj_t) * (size_t) a->len));
+            CHECK("array: items has at least len slots", a->items == NULL || OBJ_SIZE(a->items) >= sizeof(spif_obj_t) * (size_t) a->len);
         }
         for (k = 0; k < a->len && k <= MAXN && a->items; k++) {
             out[k] = a->items[k];
